@@ -28,7 +28,7 @@ type tierCfg struct {
 	MaxNonNull int      // states with more non-null slots are outside the explored space
 	Inits      []string // initial module graphs
 	NoCache    []bool   // runtime configurations
-	Full       bool     // full alphabet (thorough); quick leaves out 7 of the 15 store operations and close-cache-from-a-host-function
+	Full       bool     // full alphabet (thorough); quick leaves out 7 of the 15 store operations, close-cache-from-a-host-function and 2 of the 4 close-filler operations
 }
 
 // store operations of the quick alphabet: one per (edge class, slot kind) — see NOTES.md
@@ -37,7 +37,7 @@ var quickStores = map[int]bool{0: true, 1: true, 3: true, 6: true, 7: true, 8: t
 func (c tierCfg) alphabet() []op {
 	var out []op
 	for _, o := range allOps() {
-		if !c.Full && ((o.K == kStore && !quickStores[o.X]) || (o.K == kReenter && o.A == aCloseCache)) {
+		if !c.Full && ((o.K == kStore && !quickStores[o.X]) || (o.K == kReenter && o.A == aCloseCache) || (o.K == kCloseFiller && o.X != 0 && o.X != 3)) {
 			continue
 		}
 		out = append(out, o)
@@ -53,6 +53,7 @@ func cfgFor(run *fw.Run) tierCfg {
 	if os.Getenv("C09_FULL") == "1" {
 		c.Full = true
 	}
+	keyFillers = c.Full
 	if v := os.Getenv("C09_DEPTH"); v != "" {
 		c.Depth, _ = strconv.Atoi(v)
 	}
@@ -369,14 +370,22 @@ func (e *explorer) report(h history, eng int, r *caseResult) {
 			}
 		}
 	}
-	if same >= 3 {
+	if same >= 1 {
+		// code addresses (mmap) differ between processes, and some divergences depend on the address order of the
+		// compiled modules: whenever one shows, it IS a difference from the twin, so one reproduction suffices
 		e.outcomes.Inc("violation:" + f.Kind)
 		e.run.Violation(sig, fmt.Sprintf("%s (reproduced %d/%d in fresh processes)", what, same, tries), replay)
 		return
 	}
-	if f.Kind == "timeout" && same == 0 {
+	if f.Kind == "timeout" {
 		e.outcomes.Inc("timeout-not-reproduced")
 		e.run.Note("watchdog expiry not reproduced in %d fresh runs (machine load): %s", tries, h)
+		return
+	}
+	if strings.HasSuffix(f.Site, "!trap") && f.Kind == "diverged" {
+		// layout dependent trap-text difference seen once in a long-lived child and in none of the fresh processes
+		e.outcomes.Inc("trap-text-divergence-not-reproduced")
+		e.run.Note("trap text divergence seen once, reproduced 0/%d in fresh processes: %s", tries, what)
 		return
 	}
 	e.outcomes.Inc("unreproducible-failure")
@@ -386,7 +395,7 @@ func (e *explorer) report(h history, eng int, r *caseResult) {
 func hasLifetimeOp(h history) bool {
 	for _, o := range h.Ops {
 		switch o.K {
-		case kCloseInst, kCloseComp, kCloseCache, kCloseRt, kDrop, kGC, kReenter, kFailInst:
+		case kCloseInst, kCloseComp, kCloseCache, kCloseRt, kDrop, kGC, kReenter, kFailInst, kCloseFiller:
 			return true
 		}
 	}
@@ -422,6 +431,11 @@ func (e *explorer) explore() {
 				}
 				if hasLifetimeOp(h) {
 					e.nontrivial++
+				}
+				if r.Known2 > 0 {
+					e.sigSeen[knownSig2]++
+					e.run.Violation(knownSig2, fmt.Sprintf("%s engine, history %s: %d trap probes, e.g. %s; model state: %s", engineNames[eng], h, r.Known2, r.Known2Ex, h.final()),
+						map[string]any{"history": h, "engine": eng, "readable": h.String()})
 				}
 				switch r.Status {
 				case "ok":
@@ -511,14 +525,14 @@ func (e *explorer) explore() {
 // name the content of A.tab[0]; verdicts always come from the comparison with the twin.
 func calibrate() {
 	for k := 0; k < nFailKinds; k++ {
-		w := newWorld(false, 1, false, [3]bool{true, false, false})
+		w := newWorld(false, 1, false, [3]bool{true, false, false}, 0)
 		if r := w.do(op{K: kInst, X: mA}); r != "ok" {
 			fw.Fatalf("calibration: instantiate A: %s", r)
 		}
 		if r := w.do(op{K: kFailInst, X: k, A: viaKeptCompiled}); !strings.HasPrefix(r, "inst-failed:") || strings.HasPrefix(r, "inst-failed:compile") {
 			fw.Fatalf("calibration: failing instantiation %s: %s", failKindNames[k], r)
 		}
-		_, out := w.call(mA, "call_t")
+		_, out := w.call(mA, "call_t", 0)
 		switch out {
 		case fmt.Sprintf("v:%d", valD):
 			failWrites[k] = true
